@@ -261,6 +261,17 @@ def _fold_constant_switches(mir):
         blk["t"] = {"k": "goto", "target": hit[0] if hit else t["otherwise"], "folded_switch": True}
 
 
+def module_of(body):
+    """module path of a body, from its def path: the segments before the first `{impl#..}` / the item's own name"""
+    segs = body.id.split("::")
+    out = []
+    for i, sg in enumerate(segs):
+        if sg.startswith("{") or i == len(segs) - 1:
+            break
+        out.append(sg)
+    return "::".join(out)
+
+
 def same_impl_helpers(body, module=False, exclude=()):
     """predicate: callee is a non-derived method/function defined next to `body` (same parent impl/module), i.e. a private
     helper the function was split into"""
@@ -293,5 +304,5 @@ def same_impl_helpers(body, module=False, exclude=()):
         if par == pname:
             return True
         # private free function of the module the impl (or the function) lives in
-        return module and not fn.impl and (par == pname.rsplit("::", 1)[0] or par == pname)
+        return module and not fn.impl and module_of(fn) == module_of(root)
     return want
